@@ -300,6 +300,20 @@ def judge(rep, wl, script, lines, ff):
             pending = (t[0], ret, t[3] == "f", dict(pos), k, None)
             if t[0] == "r":
                 reads.append((pos["r"], ret, d.get("data", ""), k))
+        elif t[0] in ("rraw", "wraw"):
+            # sf_read_raw / sf_write_raw: byte counts; the position moves by ret / blockwidth frames
+            req = int(t[2])
+            ret = int(d.get("ret", "-99"))
+            if not (0 <= ret <= req):
+                probs.append(Problem("range", k, "%s of %d bytes returned %d" % (t[0], req, ret)))
+            bw = getattr(rep, "bpf", 0) or getattr(rep, "blockwidth", 0)
+            same_view = ff is None or lines[ops.index(next(o for o in ops if o.startswith("open ")))].strip() == ff.get("open", "").strip()
+            if t[0] == "rraw":
+                reads.append((pos["r"], ret, d.get("data", "")[:2 * max(ret, 0)], k))      # judged by the `data` clause like the typed reads
+            if bw > 0 and ret >= 0 and ret % bw == 0 and same_view:     # (a fault inside the open may leave the library with another frame width)
+                pending = ("r" if t[0] == "rraw" else "w", ret // bw, True, dict(pos), k, None)
+            else:
+                pending = None
         elif t[0] == "seek":
             ret = int(d.get("ret", "-99"))
             wh = int(t[3])
@@ -402,13 +416,15 @@ def normalise_l1(script, lines):
         d = kvs(l)
         if t[0] == "open" and "ch" in d:
             ch = int(d["ch"]) or 1
-        if "err" in d and t[0] in ("r", "w", "seek", "cmd"):
+        if "err" in d and t[0] in ("r", "w", "seek", "cmd", "rraw", "wraw"):
             l = re.sub(r"err=-?\d+", "err=0" if d["err"] == "0" else "err=E", l)
         if t[0] == "r" and "data" in d:
             ret = max(0, int(d.get("ret", 0)))
             items = ret * (ch if t[3] == "f" else 1)
             w = {"s16": 4, "s32": 8, "f32": 8, "f64": 16}[t[2]]
             l = l.split("data=")[0] + "data=" + d["data"][:items * w]
+        if t[0] == "rraw" and "data" in d:
+            l = l.split("data=")[0] + "data=" + d["data"][:2 * max(0, int(d.get("ret", 0)))]
         if t[0] == "iolog" and t[1] == "dump":
             l = "calls=%s fired=%s first=%s kinds=%s" % (d.get("calls"), d.get("fired"), d.get("first"), d.get("kinds", ""))
         out.append(l.strip())
